@@ -345,7 +345,7 @@ theorem direct_field_wins (root : List F) (k : Bytes) (j : Nat) (f : F)
 theorem map_absent_key_is_nil (es : List (Bytes × Val)) (ifc nl : Bool) (k : Bytes)
     (h : alookup k es = none) :
     resolveIndex (.smap es ifc nl) (.str k) none = .ok .invalid := by
-  simp [resolveIndex, Val.isValid, indirect, h]
+  simp [resolveIndex, Val.isValid, indirectA, h]
   rfl
 
 /-- **a map entry is returned as stored** (through `indirectEface` when the element type is an
@@ -353,25 +353,47 @@ theorem map_absent_key_is_nil (es : List (Bytes × Val)) (ifc nl : Bool) (k : By
 theorem map_present_key (es : List (Bytes × Val)) (ifc nl : Bool) (k : Bytes) (v : Val)
     (h : alookup k es = some v) :
     resolveIndex (.smap es ifc nl) (.str k) none = .ok (elemOut ifc v) := by
-  simp [resolveIndex, Val.isValid, indirect, h]
+  simp [resolveIndex, Val.isValid, indirectA, h]
   rfl
 
 /-- **`a.b` agrees with `a["b"]` on maps**: the field form passes the name as `indexAsStr`, the
     index form passes a string value -/
 theorem map_field_eq_index (es : List (Bytes × Val)) (ifc nl : Bool) (k : Bytes) :
     resolveIndex (.smap es ifc nl) .invalid (some k) = resolveIndex (.smap es ifc nl) (.str k) none := by
-  simp [resolveIndex, Val.isValid, indirect]
+  simp [resolveIndex, Val.isValid, indirectA]
 
 /-- **`a.b` agrees with `a["b"]` on structs** -/
 theorem struct_field_eq_index (tn : String) (fs : List (Bytes × Val)) (k : Bytes) :
     resolveIndex (.struct tn fs) .invalid (some k) = resolveIndex (.struct tn fs) (.str k) none := by
-  simp [resolveIndex, Val.isValid, indirect]
+  simp [resolveIndex, Val.isValid, indirectA]
 
 /-- **a missing (or unexported) struct field is an error** -/
 theorem struct_missing_field_is_error (tn : String) (fs : List (Bytes × Val)) (k : Bytes)
-    (h : alookup k fs = none) :
+    (h : alookup k fs = none) (hm : methodByName tn false k = none) :
     ∃ e, resolveIndex (.struct tn fs) (.str k) none = .error (.err e) := by
-  simp [resolveIndex, Val.isValid, indirect, h, errPlain, throwErr, Fails.failWith]
+  simp [resolveIndex, Val.isValid, indirectA, h, hm, errPlain, throwErr, Fails.failWith]
+
+/-- **a method of that name wins over a field**, and is bound to the value it was selected on;
+    reached through a pointer the value is addressable, so pointer-receiver methods are in the set -/
+theorem method_wins_over_field (tn : String) (fs : List (Bytes × Val)) (k : Bytes) (m : String)
+    (hm : methodByName tn false k = some m) :
+    resolveIndex (.struct tn fs) (.str k) none = .ok (.method m (.struct tn fs)) := by
+  simp [resolveIndex, Val.isValid, indirectA, hm]
+  rfl
+
+theorem method_through_pointer (tn pn : String) (fs : List (Bytes × Val)) (k : Bytes) (m : String)
+    (hm : methodByName tn true k = some m) :
+    resolveIndex (.ptr pn (some (.struct tn fs))) (.str k) none = .ok (.method m (.struct tn fs)) := by
+  simp [resolveIndex, Val.isValid, indirectA, hm]
+  rfl
+
+/-- **a pointer-receiver method is not in the method set of a non-addressable value** (the harness
+    type `T3`: `PTag` has a pointer receiver, `Tag` a value receiver) -/
+theorem pointer_method_needs_addressable :
+    methodByName "T3" false [80, 84, 97, 103] = none ∧
+    methodByName "T3" true [80, 84, 97, 103] = some "PTag" ∧
+    methodByName "T3" false [84, 97, 103] = some "Tag" := by
+  decide
 
 /-- **an out-of-range or negative index is an error, an in-range one selects that element** -/
 theorem indexArg_in_range (i : Int) (cap : Nat) :
@@ -398,13 +420,13 @@ theorem slice_index (es : List Val) (ifc nl : Bool) (i : Nat) (e : Val) (h : es[
   have ha : indexArg (.int i) es.length = .ok i := by
     have := (indexArg_in_range (i : Int) es.length).1 ⟨by omega, by exact_mod_cast hi⟩
     simpa using this
-  simp only [resolveIndex, Val.isValid, indirect, ha]
+  simp only [resolveIndex, Val.isValid, indirectA, ha]
   simp [bind, Except.bind, h]
   rfl
 
 /-- **nil dereferences are errors** -/
 theorem nil_pointer_is_error (tn : String) (idx : Val) (s : Option Bytes) :
     ∃ e, resolveIndex (.ptr tn none) idx s = .error (.err e) := by
-  simp [resolveIndex, Val.isValid, indirect, errPlain, throwErr, Fails.failWith]
+  simp [resolveIndex, Val.isValid, indirectA, errPlain, throwErr, Fails.failWith]
 
 end JetVerif.Props.C06
